@@ -15,28 +15,28 @@ package crypto
 //@   ensures result <==> (x != nil && y != nil && oncurve(c, val(x), val(y)))
 
 //@ func NewECPoint
-//@   props C06 C17
+//@   props C06 C17 C10 C11 C12 C13 C15
 //@   requires curve != nil
 //@   ensures [C17.accept-iff-oncurve] (result1 == nil) <==> (X != nil && Y != nil && oncurve(curve, val(X), val(Y)))
 //@   ensures [C17.carries-input] result1 == nil ==> (result0 != nil && fresh(result0) && result0.curve == curve && result0.coords[0] == X && result0.coords[1] == Y)
 //@   ensures result1 != nil ==> result0 == nil
 
 //@ func NewECPointNoCurveCheck
-//@   props C06 C17
+//@   props C06 C17 C10 C11 C12 C13 C15
 //@   ensures result != nil && fresh(result) && result.curve == curve && result.coords[0] == X && result.coords[1] == Y
 
 //@ func (*ECPoint).X
-//@   props C06 C17
+//@   props C06 C17 C10 C11 C12 C13 C15
 //@   requires p != nil && p.coords[0] != nil
 //@   ensures result != nil && fresh(result) && val(result) == px(p)
 
 //@ func (*ECPoint).Y
-//@   props C06 C17
+//@   props C06 C17 C10 C11 C12 C13 C15
 //@   requires p != nil && p.coords[1] != nil
 //@   ensures result != nil && fresh(result) && val(result) == py(p)
 
 //@ func (*ECPoint).Add
-//@   props C06 C17
+//@   props C06 C17 C10 C11 C12 C13 C15
 //@   requires p != nil && wfPoint(p) && p1 != nil && wfPoint(p1)
 //@   ensures result1 == nil ==> (validPoint(result0) && fresh(result0) && result0.curve == p.curve)
 //@   ensures result1 == nil ==> (px(result0) == ecaddx(p.curve, px(p), py(p), px(p1), py(p1)) && py(result0) == ecaddy(p.curve, px(p), py(p), px(p1), py(p1)))
@@ -44,7 +44,7 @@ package crypto
 
 //@ func (*ECPoint).ScalarMult
 //@   deadpoints 1
-//@   props C06 C17
+//@   props C06 C17 C10 C11 C12 C13 C15
 //@   requires validPoint(p)
 //@   requires [scalar-not-zero-mod-order] okScalar(p.curve, k)
 //@   ensures validPoint(result) && fresh(result) && result.curve == p.curve
@@ -52,7 +52,7 @@ package crypto
 
 //@ func ScalarBaseMult
 //@   deadpoints 1
-//@   props C06 C17
+//@   props C06 C17 C10 C11 C12 C13 C15
 //@   requires curve != nil
 //@   requires [scalar-not-zero-mod-order] okScalar(curve, k)
 //@   ensures validPoint(result) && fresh(result) && result.curve == curve
@@ -69,13 +69,13 @@ package crypto
 //@   ensures result == p.curve
 
 //@ func (*ECPoint).Equals
-//@   props C06 C17
+//@   props C06 C17 C10 C11 C12 C13 C15
 //@   requires p != nil ==> wfPoint(p)
 //@   requires p2 != nil ==> wfPoint(p2)
 //@   ensures result <==> (p != nil && p2 != nil && px(p) == px(p2) && py(p) == py(p2))
 
 //@ func (*ECPoint).SetCurve
-//@   props C06 C17 C20
+//@   props C06 C17 C20 C10 C11 C12 C13 C15
 //@   requires p != nil
 //@   modifies p.curve
 //@   ensures result == p && p.curve == curve
@@ -86,7 +86,7 @@ package crypto
 //@   ensures result <==> validPoint(p)
 
 //@ func (*ECPoint).EightInvEight
-//@   props C06 C17
+//@   props C06 C17 C10 C11 C12 C13 C15
 //@   requires validPoint(p) && isedw(p.curve)
 //@   ensures validPoint(result) && fresh(result) && result.curve == p.curve
 
@@ -96,7 +96,7 @@ package crypto
 //@   ensures result != nil && fresh(result)
 
 //@ func FlattenECPoints
-//@   props C06 C17
+//@   props C06 C17 C15 C10
 //@   requires forall k in 0..len(in) :: (in[k] != nil ==> allocated(in[k]))
 //@   ensures result1 == nil ==> (len(result0) == 2 * len(in) && fresh(result0))
 //@   ensures result1 == nil ==> forall k in 0..len(in) :: (in[k] != nil && result0[2*k] == in[k].coords[0] && result0[2*k+1] == in[k].coords[1] && result0[2*k] != nil && result0[2*k+1] != nil)
@@ -104,7 +104,7 @@ package crypto
 //@   loop 0 invariant forall k in 0..$iter :: (in[k] != nil && flat[2*k] == in[k].coords[0] && flat[2*k+1] == in[k].coords[1] && flat[2*k] != nil && flat[2*k+1] != nil)
 
 //@ func UnFlattenECPoints
-//@   props C06 C17
+//@   props C06 C17 C15 C10
 //@   requires curve != nil
 //@   ensures result1 == nil ==> (2 * len(result0) == len(in) && fresh(result0))
 //@   ensures [C17.unflatten-valid] (result1 == nil && (len(noCurveCheck) == 0 || !noCurveCheck[0])) ==> forall k in 0..len(result0) :: (validPoint(result0[k]) && result0[k].curve == curve && result0[k].coords[0] == in[2*k] && result0[k].coords[1] == in[2*k+1])
